@@ -348,8 +348,8 @@ API(14, "SyncGroup", "0-3",
         F("assignment", "bytes"),
     ])
 
-# ---- Heartbeat (12) v0-v3 (library: v0-v1) ---------------------------------
-API(12, "Heartbeat", "0-3",
+# ---- Heartbeat (12) v0-v1 (fields up to v3 listed for reference) -----------
+API(12, "Heartbeat", "0-1",
     request=[
         F("group_id", "string"),
         F("generation_id", "int32"),
@@ -361,8 +361,8 @@ API(12, "Heartbeat", "0-3",
         F("error_code", "int16"),
     ])
 
-# ---- LeaveGroup (13) v0-v2 (library: v0-v1) --------------------------------
-API(13, "LeaveGroup", "0-2",
+# ---- LeaveGroup (13) v0-v1 -------------------------------------------------
+API(13, "LeaveGroup", "0-1",
     request=[
         F("group_id", "string"),
         F("member_id", "string", "0-2"),
